@@ -25,6 +25,10 @@ class ExprMixin:
                     for s2, v in self.ev(e.value, s, cx):
                         items = self.iter_items(v, s2, cx)
                         if items is None:
+                            if isinstance(v, VList) and len(es) == 1:
+                                from .sym_call import VStarList
+                                nxt.append((s2, vs + [VStarList(v)]))
+                                continue
                             raise Unsupported("*args over a symbolic sequence")
                         nxt.append((s2, vs + list(items)))
                 else:
@@ -883,7 +887,13 @@ class ExprMixin:
             n = z3.simplify(v.sort.len(v.t))
             if z3.is_int_value(n):
                 return [list_get(v, z3.IntVal(i)) for i in range(n.as_long())]
+            if st is not None and not self.feasible(st, v.sort.len(v.t) > 0):
+                return []
             return None
+        from .sym_builtin import VItems, VValues
+        d = v.d if isinstance(v, (VItems, VValues)) else v if isinstance(v, VDict) else None
+        if d is not None and st is not None and not self.feasible(st, d.sort.n(d.t) > 0):
+            return []
         return None
 
     def ev_ListComp(self, e, st, cx):
@@ -992,6 +1002,66 @@ class ExprMixin:
                 out.append((s, VTuple(items, is_list=True)))
         return out
 
+    def filter_axioms(self, out, xs, pred, elt, st):
+        """out is the subsequence of xs (mapped through elt) of the elements that satisfy pred, in order:
+        src strictly increasing with out[q] == elt(xs[src[q]]) and pred(xs[src[q]]); pos[i] the position of every selected xs[i]"""
+        ls, xl = out.sort, xs.sort
+        # skolem witnesses as functions of the two lists, shared with the spec predicate is_filtering
+        fs = z3.Function("filt_src_%s_%s" % (ls.name(), xl.name()), ls.z3(), xl.z3(), z3.ArraySort(z3.IntSort(), z3.IntSort()))
+        fp = z3.Function("filt_pos_%s_%s" % (ls.name(), xl.name()), ls.z3(), xl.z3(), z3.ArraySort(z3.IntSort(), z3.IntSort()))
+        src = fs(out.t, xs.t)
+        pos = fp(out.t, xs.t)
+        q = z3.FreshConst(z3.IntSort(), "fq")
+        i = z3.FreshConst(z3.IntSort(), "fi")
+        n, m = xl.len(xs.t), ls.len(out.t)
+        sq = z3.Select(src, q)
+        facts = [m >= 0, m <= n,
+                 z3.ForAll([q], z3.Implies(z3.And(q >= 0, q < m), z3.And(sq >= 0, sq < n, pred(list_get(xs, sq)),
+                                                                       z3.Select(ls.arr(out.t), q) == term_of(elt(list_get(xs, sq)), ls.elem),
+                                                                       z3.Select(pos, sq) == q))),
+                 z3.ForAll([q], z3.Implies(z3.And(q >= 1, q < m), z3.Select(src, q - 1) < sq)),
+                 z3.ForAll([i], z3.Implies(z3.And(i >= 0, i < n, pred(list_get(xs, i))),
+                                           z3.And(z3.Select(pos, i) >= 0, z3.Select(pos, i) < m, z3.Select(src, z3.Select(pos, i)) == i))),
+                 canonical_list(out.t, ls)]
+        return facts
+
+    def filter_comprehension(self, e, st, cx, kind):
+        "[f(x) for x in xs if p(x)] with pure f, p over a symbolic list"
+        g = e.generators[0]
+        res = self.ev(g.iter, st, cx)
+        if len(res) != 1 or not isinstance(res[0][1], VList):
+            raise Unsupported("filter comprehension over %r" % (res[0][1] if res else None,))
+        s, xs = res[0]
+
+        def apply(expr_list, x):
+            s2 = s.copy()
+            self.bind_target(g.target, x, s2.env)
+            acc = []
+            vals = [self.ev1(ex, s2, cx.child(spec=True, acc=acc)) for ex in expr_list]
+            if acc or s2.heap != s.heap or not z3.eq(s2.top, s.top):
+                raise Unsupported("impure filter comprehension")
+            s.pc.extend(s2.pc[len(s.pc):])
+            return vals
+        probe = apply([e.elt], list_get(xs, z3.FreshConst(z3.IntSort(), "fp")))[0]
+        es = Ref if isinstance(probe, VRef) else probe.sort
+        proj = None
+        if isinstance(es, TUnionRec) and len(g.ifs) == 1 and isinstance(g.ifs[0], ast.Call) and isinstance(g.ifs[0].func, ast.Name) \
+                and g.ifs[0].func.id == "isinstance" and isinstance(e.elt, ast.Name) and isinstance(g.target, ast.Name) and e.elt.id == g.target.id:
+            tv = self.ev1(g.ifs[0].args[1], s, cx.child(spec=True, acc=[]))
+            if isinstance(tv, VType) and tv.qn in es.members:
+                proj = tv.qn
+                es = es.members[proj]
+        ls = TList(es)
+        out = fresh(ls, "filt")
+        pred = lambda x: z3.And(*[truth(v) for v in apply(g.ifs, x)])
+        if proj is not None:
+            usort = xs.sort.elem
+            elt = lambda x: VRec(usort.get(x.t, usort.member_field(proj)), es)
+        else:
+            elt = lambda x: apply([e.elt], x)[0]
+        s.pc.extend(self.filter_axioms(out, xs, pred, elt, s))
+        return [(s, out)]
+
     def comprehension_as_loop(self, e, st, cx, kind):
         """[f(x) for x in xs] with an element expression that calls contracted code, over a symbolic sequence: executed as
               _compK = []; for x in xs: _compK.append(f(x))
@@ -1046,6 +1116,8 @@ class ExprMixin:
     def symbolic_comprehension(self, e, st, cx, kind, itv):
         """[f(x) for x in xs] over a symbolic list with a pure element expression and no filter:
         result is a fresh list r with len r == len xs and forall i: r[i] == f(xs[i])"""
+        if kind != "dict" and len(e.generators) == 1 and e.generators[0].ifs:
+            return self.filter_comprehension(e, st, cx, kind)
         if kind == "dict" or len(e.generators) != 1 or e.generators[0].ifs:
             raise Unsupported("comprehension over a symbolic sequence (filter / nested / dict) at line %d" % e.lineno)
         g = e.generators[0]
@@ -1116,4 +1188,4 @@ SPEC_BUILTINS = {"implies", "iff", "old", "forall", "exists", "isinst", "cls_is"
                  "field", "len", "str", "all", "any", "range", "int", "bool", "isinstance", "type", "zip", "enumerate",
                  "list", "tuple", "concat", "prefix_of", "seq_eq", "allocated", "unchanged", "strlen", "substr",
                  "startswith", "endswith", "contains", "old_field", "replace", "min", "max", "abs", "index_of", "in_re_ws",
-                 "set_subset", "lemma", "dict_keys", "store", "const_map", "any_value", "cls", "u_is_str", "u_is_obj", "u_is_list", "u_list", "u_str", "u_obj", "monotone", "stable_except", "live", "float_text", "frame", "same_class", "is_new", "is_space", "str_repeat", "pigeonhole", "card", "result_is_new", "str_from_int", "at"}
+                 "set_subset", "lemma", "dict_keys", "store", "const_map", "any_value", "is_flattening", "is_filtering", "cls", "u_is_str", "u_is_obj", "u_is_list", "u_list", "u_str", "u_obj", "monotone", "stable_except", "live", "float_text", "frame", "same_class", "is_new", "is_space", "str_repeat", "pigeonhole", "card", "result_is_new", "str_from_int", "at"}
